@@ -137,6 +137,10 @@ def run(P, chk, tier):
         for lt in sorted(letters):
             for variant in (lt, lt.upper()):
                 rd = reader.get(variant, set())
+                if variant in reader and (not rd or any(c_ not in known_ops for k_, c_ in rd)):
+                    chk.undecided(r1, nd, nd.line, "reader: letter '%s' (hostname, option %s)" % (variant, opt),
+                                  "the decoder does not pick a constant codec by a test of the letter here (%s)" % sorted(rd))
+                    continue
                 okr = rd == {("unpack", c) for c in codecs}
                 chk.site(r1, nd, nd.line, "reader: letter '%s' (hostname, option %s)" % (variant, opt), okr,
                          "decoder uses %s, writer used %s" % (sorted(rd), sorted(codecs)))
@@ -161,6 +165,10 @@ def run(P, chk, tier):
             for variant in (lt, lt.upper()):
                 rd = reader.get(variant, set())
                 want = {("copy", "raw")} if codecs == {"raw"} else {("dec", c) for c in codecs}
+                if variant in reader and (not rd or any(c_ not in known_ops for k_, c_ in rd)):
+                    chk.undecided(r1, nd, nd.line, "reader: letter '%s' (TXT, option %s)" % (variant, opt),
+                                  "the decoder does not pick a constant codec by a test of the letter here (%s)" % sorted(rd))
+                    continue
                 chk.site(r1, nd, nd.line, "reader: letter '%s' (TXT, option %s)" % (variant, opt), rd == want,
                          "decoder uses %s, writer used %s" % (sorted(rd), sorted(codecs)))
     # ------------------------------------------------------------------ R2
@@ -187,9 +195,30 @@ def run(P, chk, tier):
         chk.site(r2, f, f.line, "format classes in %s" % f.name, p == want, "classes %s" % p)
     rq = P.func("read_dns_withq", "client.c")
     cls = {}
+    from iosa import fieldinv
+
+    def in_loop(f, b):
+        return any(b.id in body for body in fieldinv._loops(f).values())
+
+    def route(f, calls, depth=0):
+        """('namedec', looped) if a call among `calls` reaches dns_namedec, directly or through a client helper."""
+        hit, looped = False, False
+        for b, c in calls:
+            if c.get("fn") == "dns_namedec":
+                hit = True
+                looped = looped or in_loop(f, b)
+            elif depth < 2:
+                t_ = P.callee(c, f)
+                if t_ is not None and t_.unit.file == "client.c" and t_.name != f.name:
+                    h2, l2 = route(t_, list(t_.calls()), depth + 1)
+                    if h2:
+                        hit = True
+                        looped = looped or l2 or in_loop(f, b)
+        return hit, looped
     for t, v in vals:
         _, callees, calls = tables.reach_under(rq, {"q->type": v, "conn": enum_values(P, {"CONN_DNS_NULL"}).get("CONN_DNS_NULL", 0)})
-        cls[t] = ("namedec" if "dns_namedec" in callees else "") + ("+loop" if "strlen" in callees else "")
+        hit, looped = route(rq, calls)
+        cls[t] = ("namedec" if hit else "") + ("+loop" if hit and looped else "")
     okq = cls["T_CNAME"] == "namedec" and cls["T_TXT"] == "namedec" and cls["T_MX"] == cls["T_SRV"] == "namedec+loop" \
         and cls["T_NULL"] == cls["T_PRIVATE"] == ""
     chk.site(r2, rq, rq.line, "routing in read_dns_withq", okq, "per type: %s" % cls)
@@ -451,7 +480,16 @@ def txt_tiling(P, E, chk, r5):
         ds = an.before_node(c["n"]) or []
         nokey = pp(ln)
         bounded = all(guard.d_holds(d, "<=", nokey, 255) and guard.d_holds(d, ">=", nokey, 0) for d in ds)
-        same = all(any(guard.d_holds(d, "==", v, nokey) for v in bytevars) for d in ds)
+        same = bool(bytevars) and all(any(guard.d_holds(d, "==", v, nokey) for v in bytevars) for d in ds)
+        # or: the length byte is stored straight from the copy length (`*out++ = (unsigned char) tocopy`)
+        direct = [x for b2, x in pt.all_nodes() if x.get("k") == "Bin" and x["op"] == "=" and
+                  sk(x["a"][0]).get("k") in ("Un", "Sub") and ((sk(x["a"][0]).get("t") or {}).get("bits") == 8) and
+                  pp(sk(x["a"][1])) == nokey and ir.loc(x) <= ir.loc(c)]
+        if not same and direct:
+            same = True
+        if not same and not bytevars and not direct:
+            chk.undecided(r5, pt, ir.loc(c), pp(c)[:60], "how the length byte of a TXT string is written is not recognised")
+            continue
         chk.site(r5, pt, ir.loc(c), pp(c)[:60], bounded and same,
                  "copy length %s is within 0..255 (%s) and equals the length byte %s (%s)" % (nokey, bounded, bytevars, same))
     if nm < 1:
